@@ -210,9 +210,17 @@ func (r *Runner) RunProgram(p Program) []uint64 {
 	tr.Emit("ReleaseAll", 0, 0)
 	for _, c := range order {
 		for _, n := range c.pending {
+			if p.Rel == "staged" && (c.pc.Beh[n-1] == 'R' || c.pc.Beh[n-1] == 'G') {
+				// an explicit repeated release, after later handlers have started
+				e.Server(n).Script(c.tok) <- puppetsrv.Cmd{Kind: "release3"}
+			}
 			for _, cmd := range r.finalCmd(c.kind) {
 				e.Server(n).Script(c.tok) <- cmd
 			}
+		}
+		if p.Rel == "staged" && len(c.pending) > 0 {
+			// leave time for a premature start of a later handler to show up
+			time.Sleep(ObsWindow)
 		}
 	}
 	// wait until every invocation returned and every started handler returned
